@@ -243,6 +243,9 @@ def real_reset(world, force):
 
 
 def replay(data):
+    if 'history' in data:
+        from . import histcheck
+        return histcheck.replay('C15', data)
     world, force = data['world'], data['force']
     if W not in world['refs']:
         return False
@@ -356,3 +359,6 @@ def check(rep):
     tw, st = explore(make_harness(4, False, True, twin=True), max_depth=2000)
     if not any(r['label'] == 'twin' for _, r in tw):
         rep.error('reachability twin not refuted')
+    # the commands repeated along histories of complete jobs (DESIGN 11)
+    from . import histcheck
+    histcheck.check(rep, 'C15')
